@@ -3,7 +3,7 @@ LEVEL = "proof"
 TITLE = 'Each stored and each removed message produces exactly one event, in causal order'
 DESIGN_REF = "DESIGN.md §4 C16"
 TECHNIQUE = "machine-checked proof in Coq + model/code correspondence check"
-LEVEL_TEXT = "proof (partial): listener_serial — the per-listener FIFO broker model calls a listener serially under EVERY schedule; stored_before_deleted_refuted is the witness of the open finding. Event contents of every operation (one deleted event per departure by remove, purge, cap, size limit; one stored event per delivery, in that order) are part of the refinement statements proved for C07 (file model all caps, memory model without limits) and are otherwise checked by the oracle on 400 histories per run through the real StoreManager.Deliver and extension.Host listeners. Retention is C12's."
+LEVEL_TEXT = "proof (one clause partial): stored_once and deleted_once (per message: #deleted + #live = #stored, #stored = 1 iff delivered) for every history x limits on both back-end models, every departure path (remove, purge, cap, size limit; retention removes through RemoveMessage); stored_before_deleted_partial under the guard that excludes the open oversize finding (stored_before_deleted_refuted is its witness); listener_serial and delivery_is_emit_order for the per-listener FIFO broker under every schedule. PARTIAL: the order in which a consumer of BOTH events sees a message's stored and deleted is not claimed — the two events travel through separate brokers (replayed on the real code: deleted(m2) before stored(m2), see xbroker). Tie to /repo: about 530 histories per run through the real StoreManager.Deliver and extension.Host listeners + forced broker schedules."
 LEVEL_NOTE = 'events are attributed to operations by flushing both brokers with a sentinel after every operation; order between the two brokers is observed at operation granularity only'
 RULE = ("random operation histories (4-60 ops, 1-5 mailboxes incl. names sharing a 12-bit SHA-1 prefix, '@' and special "
         "characters; missing / not-yet-issued / bogus / 'latest' handles, double removes, purge-then-latest) on a fresh real "
@@ -11,7 +11,7 @@ RULE = ("random operation histories (4-60 ops, 1-5 mailboxes incl. names sharing
         "operation on a stored message")
 TRUSTED = ["handles: messages are named by 'k-th add to this mailbox' / 'latest' / a bogus literal; the driver's id<->handle table (Go map) is modelled by StoreSpecImpl.run_impl", 'message content is abstracted to (date, tag, size, seen): the driver checks that from/to/subject/body/mailbox read back equal what the add with that handle wrote and prints the tag only then', 'VisitMailboxes enumeration order (map / readdir order) is not compared: groups are sorted by mailbox on both sides; empty groups are dropped', 'file store: byte-level disk protocol (tmp+rename, unlink order, gob) is not in this model (C10/C11); I/O errors are not modelled', 'memory store: the size enforcer goroutine is modelled as a synchronous sub-step (callers block on md.done); creation of an empty mailbox record by reads is not modelled (unobservable)', 'Go scheduler/locks: asyncListener.push/deliver are modelled as atomic steps (Events.v)']
 ASSUMPTIONS = []
-NOT_PROVED = ['stored_once_stmt, deleted_once_stmt (Proofs/EventsTrace.v): per message exactly one stored event and #deleted + #live = #stored over every history', 'stored_before_deleted_partial_stmt: without oversize adds no deleted event precedes its stored event', 'delivery_is_emit_order: a listener receives the events in emit order (FIFO); only seriality is proved', 'cross-broker order: AfterMessageStored and AfterMessageDeleted are separate brokers; nothing orders a listener pair across them (see report)']
+NOT_PROVED = ['cross-broker delivery order: AfterMessageStored and AfterMessageDeleted are separate per-listener FIFOs; a consumer registered on both can be invoked with deleted(m) before stored(m) (reproduced on the real code by go/cmd/c07/sd/xbroker.go; not part of any theorem, not an oracle)']
 
 
 def nontrivial(kind, ins, outs):
@@ -38,6 +38,10 @@ def shrink_candidates(inp):
 
 
 def match_known(case_line, reason):
+    # K-C16-cross-broker-order: the consumer of both brokers is handed deleted(m2) before stored(m2)
+    # while its stored-handler is busy with m1 (kind xbroker only).
+    if case_line.startswith("xbroker ") and reason == "fail:cross-broker-deleted-before-stored":
+        return "K-C16-cross-broker-order"
     # K-C16-oversize-order: a message larger than the whole size limit is evicted inside
     # AddMessage, its deleted event precedes its stored event. Key: the failing message was
     # added with a size above maxkb*1024 on the memory store.
